@@ -26,10 +26,12 @@ def gen(tier, rng):
         for dist in sorted(set([(1 << w) - 1, 1 << w, (1 << w) + 1, (1 << w) - 258, 32767, 32768, 32769, 70000])):
             if tier == "quick" and dist not in ((1 << w) - 1, 1 << w, (1 << w) + 1, 32768) : continue
             n = min(2 * dist + 600, 150000)
-            inp = igz.far_repeat(rng, n, dist)
+            inp = igz.far_repeat(rng, n, dist, low_entropy=(k % 3 != 2))
             for level in range(4):
-                if tier == "quick" and (k + level) % 2: continue
+                if tier == "quick" and (k + level) % 2 and level != 3: continue
                 cpu = CPUS[(k + level) % len(CPUS)]
+                if level == 3:      # the level-3 match-map generators (base, _04 on AVX2, _06 on AVX-512) mask distances separately
+                    cpu = ["avx2", "avx512g2", "base", "avx2", "avx512"][k % 5]
                 wrap = [0, 3, 1][(k + level) % 3]
                 if (k + level) % 4 == 0:
                     add(api="deflate_stateless", inp=inp, level=level, wrap=wrap, hist_bits=w, lbuf=3, calls=[[n, n + n // 4 + 500, 0, 1]], meta={"family": "window", "cpu": cpu, "w": w, "dist": dist})
